@@ -262,6 +262,6 @@ class LazyList:
 
     @lazylist
     def reversed(self):
-        self.generated += list(itertools.tee(self.raw_object)[-1])
+        len(self)  # pull the rest of the source into the cache
         for item in self.generated[::-1]:
             yield item
